@@ -82,8 +82,8 @@ PROPS = {
         "level": "exploration",
         "min_obligations": 0,
         "explanation": "No contract reaches completion.rs (outside Verus' subset; Kani does not complete on formula trees). Bounded stand-in only, on the compiled real code: "
-                       "the classical models of `translate --with completion` of the tau* theory of 36 small tight programs, over every interpretation of their predicates on the inner values, are exactly "
-                       "the brute-force stable models; non-completable theories are refused; completion with open input predicates is exercised end to end by `bounded external`.",
+                       "the classical models of `translate --with completion` of the tau* theory of 42 small tight programs, over every interpretation of their predicates on the inner values, are exactly "
+                       "the brute-force stable models; 21 non-completable theories are refused; completion with open input predicates is exercised end to end by `bounded external`.",
         "assumptions": ["bounded: programs of the corpus only, atoms over {0,1,2,a}; oracle = /verif/bounded aspsem.rs (reference semantics) and hteval.rs; nothing is proved"],
         "not_covered": ["programs outside the corpus", "infinite stable models"],
     },
@@ -93,7 +93,7 @@ PROPS = {
         "bounded_checks": ["tptp"],
         "level": "exploration",
         "min_obligations": 0,
-        "explanation": "No contract reaches the TPTP formatter (Display code writing through core::fmt). Bounded stand-in only: ~3100 closed formulas are written by the real formatter as conjectures of "
+        "explanation": "No contract reaches the TPTP formatter (Display code writing through core::fmt). Bounded stand-in only: ~7300 closed formulas are written by the real formatter as conjectures of "
                        "external-equivalence problems (no simplification, no equivalence breaking), read back by an independent TFF reader under the standard interpretation of the preamble symbols and "
                        "compared with the source formula in sampled interpretations.",
         "assumptions": ["bounded: formulas of the corpus only; oracle = /verif/bounded tff.rs (TPTP reading) and hteval.rs; the preamble axioms are read as the standard interpretation, not re-derived"],
@@ -105,7 +105,7 @@ PROPS = {
         "bounded_checks": ["rt_programs"],
         "level": "exploration",
         "min_obligations": 0,
-        "explanation": "No contract reaches the pest-generated parser. Bounded stand-in only: ~16000 programs, rules, body elements and terms accepted by the real parser are printed by the real formatter, "
+        "explanation": "No contract reaches the pest-generated parser. Bounded stand-in only: ~28000 programs, rules, body elements and terms accepted by the real parser are printed by the real formatter, "
                        "parsed again and printed again: same tree, same text.",
         "assumptions": ["bounded: texts of the corpus only; library API of the real crate"],
         "not_covered": ["texts outside the corpus"],
@@ -116,7 +116,7 @@ PROPS = {
         "bounded_checks": ["rt_theories"],
         "level": "exploration",
         "min_obligations": 0,
-        "explanation": "No contract reaches the pest-generated parser. Bounded stand-in only: ~13000 formulas (and all their subformulas), theories, specifications, user guides, proof outlines and the "
+        "explanation": "No contract reaches the pest-generated parser. Bounded stand-in only: ~18000 formulas (and all their subformulas), theories, specifications, user guides, proof outlines and the "
                        "printed output of the tau*, natural and mu translators are printed, parsed again and printed again: same tree, same text. Three genuine defects were found this way and repaired.",
         "assumptions": ["bounded: texts of the corpus only; library API of the real crate"],
         "not_covered": ["texts outside the corpus"],
